@@ -167,6 +167,21 @@ def run(check: Check):
                nontrivial=False)
 
 
+def _iter_of_param(ff: FuncFlow, e: ast.AST, p: str) -> bool:
+  """e is the parameter p, iter(p), or a name bound to one of those."""
+  for x in ff.expand(e):
+    if ff.param_of(x) == p:
+      continue
+    if isinstance(x, ast.Call) and ff.ext(x.func) == 'builtins.iter' and len(x.args) == 1 and _iter_of_param(ff, x.args[0], p):
+      continue
+    if isinstance(x, ast.Name) and x.id == p:
+      ds = ff.defs_for(x)
+      if ds and all(d.value is not None and _iter_of_param(ff, d.value, p) for d in ds if d.kind != 'param'):
+        continue
+    return False
+  return True
+
+
 def _tree_sum(check: Check, fi: FuncInfo, pa: PurityAnalysis):
   repo = check.repo
   ff = FuncFlow.of(repo, fi)
@@ -177,7 +192,7 @@ def _tree_sum(check: Check, fi: FuncInfo, pa: PurityAnalysis):
     check.inconclusive('R-WMEAN.sum', fi, 'accumulation', 'tree_sum is not in first-copy-then-add form')
     return
   loop = rec['loop']
-  it_ok = ff.param_of(loop.iter) == fi.positional_params[0] and isinstance(loop.target, ast.Name)
+  it_ok = _iter_of_param(ff, loop.iter, fi.positional_params[0]) and isinstance(loop.target, ast.Name)
   x = loop.target.id if isinstance(loop.target, ast.Name) else None
   # first arm: an owned copy of x
   fv = rec['first'][2]
@@ -214,7 +229,7 @@ def _tree_mean(check: Check, fi: FuncInfo):
     return
   loop = rec['loop']
   tg = wmean.loop_targets(loop)
-  it_ok = ff.param_of(loop.iter) == fi.positional_params[0] and len(tg) == 2 and all(isinstance(t, ast.Name) for t in tg)
+  it_ok = _iter_of_param(ff, loop.iter, fi.positional_params[0]) and len(tg) == 2 and all(isinstance(t, ast.Name) for t in tg)
   xn, wn = (tg[0].id, tg[1].id) if it_ok else (None, None)
   # T = tree_weight(x, w)
   def is_T(e):
@@ -326,6 +341,13 @@ def _mean_aggregator(check: Check):
               if isinstance(t, ast.Tuple) and len(t.elts) == 3 and isinstance(e, ast.Tuple) and len(e.elts) == 2:
                 ok_mean = all(isinstance(a, ast.Name) and isinstance(b, ast.Name) and a.id == b.id for a, b in zip(e.elts, t.elts[1:]))
                 why = txt(src)
+                if src.generators[0].ifs:
+                  ok_mean = False
+                  why = (f'clients are filtered by `{txt(src.generators[0].ifs[0])}`: when no client passes (e.g. all weights zero) the mean '
+                         f'receives nothing and cannot return an all-zero tree')
+            elif isinstance(src, ast.Call) and ff.ext(src.func) in ('builtins.filter', 'itertools.filterfalse', 'itertools.islice',
+                                                                     'itertools.takewhile', 'itertools.dropwhile'):
+              why = f'{txt(src.func)} drops clients before the mean: zero-weight-only inputs no longer give an all-zero tree'
       check.ob('R-WMEAN.agg', fi, txt(rv)[:90], ok_mean and ok_state,
                f'result must be tree_mean over each client\'s own (params, weight) in input order ({why}); stateless state '
                f'returned unchanged (ok={ok_state})')
@@ -360,8 +382,10 @@ def _onepass(check: Check, fi: FuncInfo):
     if n.ast is None:
       continue
     for x in n.walk():
-      if isinstance(x, ast.Name) and x.id == p and isinstance(x.ctx, ast.Load) and ff.is_local(x) or (
-          isinstance(x, ast.Name) and x.id == p and isinstance(x.ctx, ast.Load) and ff.scope_at(x).lookup_scope(p) is fi.scope):
+      if isinstance(x, ast.Name) and x.id == p and isinstance(x.ctx, ast.Load) and ff.scope_at(x).lookup_scope(p) is fi.scope:
+        ds = ff.defs_for(x) if ff.scope_at(x) is fi.scope else None
+        if ds is not None and ds and not any(d.kind == 'param' for d in ds):
+          continue  # the name was rebound (e.g. p = iter(p)): this load sees the iterator, not the argument
         if not any(x is y for _, y in loads):
           loads.append((n, x))
   problems = []
